@@ -15,6 +15,10 @@ import (
 	"verif/props/c06"
 	"verif/props/c07"
 	"verif/props/c08"
+	"verif/props/c09"
+	"verif/props/c10"
+	"verif/props/c11"
+	"verif/props/c12"
 	"verif/props/c18"
 )
 
@@ -27,6 +31,10 @@ var registry = map[string]func(fw.Config, *fw.Rec){
 	"C06": c06.Run,
 	"C07": c07.Run,
 	"C08": c08.Run,
+	"C09": c09.Run,
+	"C10": c10.Run,
+	"C11": c11.Run,
+	"C12": c12.Run,
 	"C18": c18.Run,
 }
 
